@@ -97,7 +97,7 @@ theorem history_independent {F : Type} (ctx : Ctx F) (e : Expr F)
 which is not even a key) … -/
 example {F : Type} (ctx : Ctx F) :
     Inv ctx (.bin .plus (.ref "a") (.lit (.int 1))) (.node .float .string none .leaf .leaf .leaf) := by
-  simp [Inv, isDyn]
+  simp [Kap.C04.Inv, isDyn]
 
 /-! ### Counterexamples: the evaluator of snapshot ef0888e (model `Kap.C04.Legacy`) is NOT transparent -/
 
